@@ -112,6 +112,7 @@ SEEDS = {
  "C16f": dict(property="C16", needs="a wrapped callable with rebinding state (instance attributes, function attributes): functools.update_wrapper copies the wrapped __dict__ into the wrapper at construction, reads through the wrapper return the values of wrap time"),
  "C18f": dict(property="C18", needs="an initializer that is a falsy callable object (callable container of optional hooks with __len__ == 0, __bool__ False): filtered out like None, no worker of the pool is initialised"),
  "C20f": dict(property="C20", needs="kill-type shutdown with a backlog (more tasks than call-queue slots) after workers fetched tasks: the work-id queue is no longer drained, the manager dies of KeyError after the kill and before join_executor_internals: feeder thread, 4 fds, 3 semaphores per lifecycle"),
+ "C06f": dict(property="C06", needs="forced shutdown arriving while a worker is on its way out (idle timeout / shrink sentinel / memory-leak recycling: exit announced, released by the manager, process still running its exit handlers): the manager no longer joins it, it is in nobody's books, survives the kill and is never reaped"),
  "C20e": dict(property="C20", needs="a worker killed by a real-time signal (no signal.Signals member): the exit-code name lookup became a dict access under except ValueError, the manager dies composing the diagnostic and the lifecycle leaks workers, feeder thread, fds, semaphores"),
  "C20b": dict(property="C20", needs="kill-type lifecycle + worker with descendants one of which vanishes during the kill: kill_process_tree returns early, the worker is neither killed nor joined (child, fd, semaphore accumulate)"),
 }
